@@ -11,7 +11,7 @@ import subprocess
 
 from .extract import VERIF, REPO
 
-TAG_RE = re.compile(r"\[(C\d+) ([wm]\d+[a-z]?)\]([^\"\n]*)")
+TAG_RE = re.compile(r"\[(C\d+) ([a-z]\d+[a-z]?)\]([^\"\n]*)")
 DIAG_RE = re.compile(r"^(?P<file>[^:\s][^:]*):(?P<line>\d+):(?P<col>\d+): (?P<kind>error|fatal error|note|warning): (?P<msg>.*)$")
 
 
